@@ -441,9 +441,9 @@ pub fn run<S: Scenario>(cfg: &RunCfg) -> i32 {
             }
             m.digest.u64(b);
             m.digest.u64(bs.digest);
-            if tot.sample_runs.len() < 4 {
+            if tot.sample_runs.len() < 48 {
                 tot.sample_runs.extend(bs.sample_runs.iter().copied());
-                tot.sample_runs.truncate(4);
+                tot.sample_runs.truncate(48);
             }
         }
     };
@@ -571,7 +571,19 @@ pub fn run<S: Scenario>(cfg: &RunCfg) -> i32 {
     let wall = t0.elapsed().as_secs_f64();
     // samples: re-execute with logging
     let mut samples = Vec::new();
-    for run in &tot.sample_runs {
+    // of the first non-trivial runs, show the four with the shortest traces (readable samples)
+    let mut cands: Vec<(usize, u64)> = tot
+        .sample_runs
+        .iter()
+        .map(|run| {
+            let mut rng = Rng::new(run_seed(cfg.seed, S::TAG, *run));
+            let t = S::gen(&mut rng, cfg.tier, *run);
+            (serde_json::to_string(&t).map(|s| s.len()).unwrap_or(usize::MAX), *run)
+        })
+        .collect();
+    cands.sort();
+    cands.truncate(4);
+    for (_, run) in &cands {
         let mut rng = Rng::new(run_seed(cfg.seed, S::TAG, *run));
         let t = S::gen(&mut rng, cfg.tier, *run);
         let o = exec_one::<S>(&t, true);
